@@ -35,6 +35,23 @@ func collectCompoundConditionParts(expr ast.Expression, parts *[]conditionPart) 
 // formatConditionLines returns formatted condition lines and whether it is multiline.
 // The preserve flag indicates that existing indentation in the returned lines must be kept.
 func (f *Formatter) formatConditionLines(expr ast.Expression) ([]string, bool, bool) {
+	lines, multiline, preserve := f.formatConditionExpressionLines(expr)
+	if !multiline {
+		return lines, multiline, preserve
+	}
+	// On multiline, the comments of the expression node itself get lines of their own
+	// (a single line is printed by formatExpression() which includes them)
+	var leading, trailing []string
+	for _, c := range expr.GetMeta().Leading {
+		leading = append(leading, f.formatComments(ast.Comments{c}, "", 0, false))
+	}
+	for _, c := range expr.GetMeta().Trailing {
+		trailing = append(trailing, f.formatComments(ast.Comments{c}, "", 0, false))
+	}
+	return append(append(leading, lines...), trailing...), multiline, preserve
+}
+
+func (f *Formatter) formatConditionExpressionLines(expr ast.Expression) ([]string, bool, bool) {
 	switch t := expr.(type) {
 	case *ast.GroupedExpression:
 		// If the grouped expression contains compound operators, format it as a nested block.
@@ -91,7 +108,14 @@ func (f *Formatter) formatConditionLines(expr ast.Expression) ([]string, bool, b
 				continue
 			}
 			if i < len(ops) {
-				opLines[len(opLines)-1] = opLines[len(opLines)-1] + " " + ops[i]
+				last := strings.TrimRight(opLines[len(opLines)-1], "\n")
+				if isLineCommentEnd(last, opLines[len(opLines)-1]) {
+					// The operator goes to the next line, otherwise it would be a part of the line comment
+					opLines[len(opLines)-1] = last
+					opLines = append(opLines, ops[i])
+				} else {
+					opLines[len(opLines)-1] = last + " " + ops[i]
+				}
 			}
 			lines = append(lines, opLines...)
 			preserve = preserve || opPreserve
@@ -101,6 +125,16 @@ func (f *Formatter) formatConditionLines(expr ast.Expression) ([]string, bool, b
 
 	line := f.formatExpression(expr).TrimmedString()
 	return []string{line}, false, false
+}
+
+// isLineCommentEnd reports whether the formatted line ends with a line comment:
+// either it kept the line feed that follows a line comment or the line is a comment of its own.
+func isLineCommentEnd(trimmed, line string) bool {
+	if trimmed != line {
+		return true
+	}
+	t := strings.TrimSpace(trimmed)
+	return strings.HasPrefix(t, "#") || strings.HasPrefix(t, "//")
 }
 
 // formatConditionExpression returns a chunked condition string and flags indicating multiline/preserve.
